@@ -1,9 +1,148 @@
-import Fpdec.Lemmas.Dom
+import Fpdec.Lemmas.Parse
+import Fpdec.Lemmas.IntTy
 import Fpdec.Props.C18_Sites
 
-/-! # C18 — property theorems (under construction: see DESIGN.md section 6) -/
+/-!
+# C18 — The Dec! macro and runtime parsing agree on every literal
+
+`macro_fold_eq`: the part of `Dec!` that follows `TokenStream::to_string` (strip the blank after a sign, `str_to_dec`, exponent
+folding with `checked_mul(10^e)`) computes, for EVERY source string, exactly what `Decimal::from_str` computes on the same text:
+the same `Decimal` (coefficient and fractional digits) when it is accepted and an error — i.e. a compile-time panic — exactly when
+`from_str` fails, with the same error kind.  Both call the shared `str_to_dec`; the theorem is about the two separately
+written tails.  Rust's lexer and `TokenStream::to_string` are not modelled: the check compiles generated `Dec!(<lit>)` programs
+with rustc and compares with `from_str` on the literal text (partial: the token path is exercised, not proved).
+-/
 
 namespace Fpdec.Props.C18
 open Fpdec Fpdec.Model
+
+theorem max_exp_const : Gen.FROM_STR_MAX_EXP = 38 := by decide
+
+theorem i128_cast_fits (x : Int) : fitsI128 (IntTy.i128.cast x) = true := by
+  unfold IntTy.cast IntTy.wrap IntTy.i128
+  simp only [if_true]
+  have e1 : (2 : Int) ^ (128 - 1) = 170141183460469231731687303715884105728 := by decide
+  have e2 : (2 : Int) ^ 128 = 340282366920938463463374607431768211456 := by decide
+  rw [e1, e2, fitsI128_iff]
+  unfold I128_MIN I128_MAX
+  omega
+
+theorem negI128_fits (prof : Profile) (x y : Int) (h : negI128 prof x = .ok y) : fitsI128 y = true := by
+  unfold negI128 plainI128 at h
+  by_cases hf : fitsI128 (-x) = true
+  · simp [hf] at h; rw [← h]; exact hf
+  · simp only [hf, if_false] at h
+    cases prof with
+    | mk oc da =>
+      cases oc
+      · simp at h
+        rw [← h]
+        unfold wrapI128; rw [fitsI128_iff]; unfold I128_MIN I128_MAX; omega
+      · simp at h
+
+open ParseAux in
+theorem mTail_fits (prof : Profile) (isNeg : Bool) (D f : Nat) (ep : Outcome (Except ParseErr (Int × List Nat)))
+    (c e : Int) (h : mTail prof isNeg D f ep = .ok (.ok (c, e))) : fitsI128 c = true := by
+  unfold mTail at h
+  split at h
+  · simp at h
+  · simp at h
+  · split at h
+    · simp at h
+    · split at h
+      · simp at h
+      · split at h
+        · simp at h
+        · split at h
+          · simp at h
+          · simp only at h
+            split at h
+            · split at h
+              · simp at h
+              · rename_i cc hneg
+                simp only [Outcome.ok.injEq, Except.ok.injEq, Prod.mk.injEq] at h
+                rw [← h.1]; exact negI128_fits prof _ _ hneg
+            · simp only [Outcome.ok.injEq, Except.ok.injEq, Prod.mk.injEq] at h
+              rw [← h.1]; exact i128_cast_fits _
+
+open ParseAux in
+/-- the coefficient returned by `str_to_dec` is an `i128` -/
+theorem strToDec_coeff_fits (prof : Profile) (s : List Nat) (c e : Int)
+    (h : strToDec prof s = .ok (.ok (c, e))) : fitsI128 c = true := by
+  rw [strToDec_eq'] at h
+  split at h
+  · simp at h
+  · unfold mBody at h
+    split at h
+    · simp at h
+    · simp only at h
+      split at h
+      · simp only [Outcome.ok.injEq, Except.ok.injEq, Prod.mk.injEq] at h
+        rw [← h.1]; decide
+      · split at h
+        · simp at h
+        · split at h
+          · simp at h
+          · exact mTail_fits prof _ _ _ _ c e h
+
+/-- MAIN: the folding of `Dec!` equals `Decimal::from_str` on the same text — value, digit count and error kind -/
+theorem macro_fold_eq (prof : Profile) (src : List Nat) :
+    macroFold prof src = fromStr prof (macroStripBlank src) := by
+  unfold macroFold fromStr
+  cases hs : strToDec prof (macroStripBlank src) with
+  | panic k => rfl
+  | ok r =>
+    cases r with
+    | error err => rfl
+    | ok ce =>
+      obtain ⟨c, e⟩ := ce
+      have hfit := strToDec_coeff_fits prof _ c e hs
+      simp only [max_exp_const]
+      cases hn : IntTy.isize.plain prof (-e) with
+      | panic k => rfl
+      | ok nexp =>
+        simp only
+        by_cases h18 : nexp > (Gen.MAX_N_FRAC_DIGITS : Int)
+        · simp [h18]
+        · simp only [h18, if_false]
+          by_cases h38 : e > ((38 : Nat) : Int)
+          · simp only [h38, if_true]
+            by_cases hc0 : c = 0
+            · subst hc0
+              have : ¬ ((0 : Int) > 0) := by omega
+              have hz : IntTy.isize.plain prof (0 : Int) = .ok 0 := by
+                unfold IntTy.plain IntTy.fits IntTy.min IntTy.max IntTy.isize; simp
+              simp [hz, Dec.ZERO, IntTy.cast, IntTy.wrap, IntTy.u8]
+            · simp [hc0]
+          · simp only [h38, if_false]
+            by_cases hneg : e < 0
+            · have hpos : ¬ e > 0 := by omega
+              simp only [hneg, hpos, if_true, if_false, hn]
+            · simp only [hneg, if_false]
+              have he : 0 ≤ e ∧ e ≤ 38 := by omega
+              rw [u8_cast_id (x := e) he.1 (by omega), checkedMulPowTen_eq c e.toNat (by omega)]
+              by_cases hpos : e > 0
+              · simp only [hpos, if_true]
+              · have he0 : e = 0 := by omega
+                subst he0
+                simp only [hpos, if_false, hn]
+                have hnz : nexp = 0 := by
+                  unfold IntTy.plain IntTy.fits IntTy.min IntTy.max IntTy.isize at hn
+                  simp at hn; omega
+                subst hnz
+                simp [checkedI128_some hfit, IntTy.cast, IntTy.wrap, IntTy.u8]
+
+/-- the sign fix-up only touches a leading `"- "` / `"+ "` -/
+theorem strip_blank_spec (s : List Nat) :
+    macroStripBlank s = (match s with
+      | 45 :: 32 :: r => 45 :: r
+      | 43 :: 32 :: r => 43 :: r
+      | s => s) := by
+  unfold macroStripBlank; rfl
+
+/-! ### non-vacuity -/
+example : macroFold Profile.dev [45, 32, 49, 46, 53] = .ok (.ok ⟨-15, 1⟩) := by decide       -- "- 1.5"
+example : macroFold Profile.dev [48, 101, 57, 57] = .ok (.ok ⟨0, 0⟩) := by decide           -- "0e99"
+example : macroFold Profile.dev [49, 101, 51, 57] = .ok (.error .overflow) := by decide     -- "1e39": does not compile
 
 end Fpdec.Props.C18
